@@ -1,6 +1,7 @@
 (** C14 -- THOROUGH TIER ONLY.  Region 3: pressure rises with density at fixed temperature (super)
     -- PARTIAL: the hottest part of region 3,
-        507 <= t <= 527 degC: 306 <= d <= 517 kg/m3;   527 < t <= 547: 329 <= d <= 483;
+        467 <= t <= 486 degC: 253 <= d <= 586 kg/m3;   486 < t <= 506: 281 <= d <= 552;
+        506 < t <= 527 degC: 306 <= d <= 517;          527 < t <= 547: 329 <= d <= 483;
         547 < t <= 567 degC: 349 <= d <= 450;          567 < t <= 590: 367 <= d <= 419
     (rectangles that contain the densities of region 3 at these temperatures according to the
     oracle's root solver -- that containment is NOT a theorem).  Colder, the sum M cancels to
@@ -11,19 +12,37 @@ From Coquelicot Require Import Coquelicot.
 From Interval Require Import Tactic.
 From Gen Require Import GenIAPWS GenTraced.
 From P Require Import Expr RunR Deriv Potential Mono1 Mono2 Mono3
-  Mono3TilesA Mono3TilesB Mono3TilesC Mono3TilesD Mono3TilesE.
+  Mono3TilesA Mono3TilesB Mono3TilesC Mono3TilesD Mono3TilesE
+  Mono3TilesF Mono3TilesG Mono3TilesH Mono3TilesI Mono3TilesJ Mono3TilesK Mono3TilesL Mono3TilesM.
 Import ListNotations.
 Close Scope Q_scope.
 Open Scope R_scope.
 
 Definition in_dom3 (tk d : R) : Prop :=
-  780 <= tk <= 864 /\
-  (tk <= 8002/10 -> 306 <= d <= 517) /\ (8002/10 < tk <= 8202/10 -> 329 <= d <= 483) /\
+  740 <= tk <= 864 /\
+  (tk <= 760 -> 253 <= d <= 586) /\ (760 < tk <= 780 -> 281 <= d <= 552) /\
+  (780 < tk <= 8002/10 -> 306 <= d <= 517) /\ (8002/10 < tk <= 8202/10 -> 329 <= d <= 483) /\
   (8202/10 < tk <= 8402/10 -> 349 <= d <= 450) /\ (8402/10 < tk -> 367 <= d <= 419).
 
 Lemma MM_pos tk d : in_dom3 tk d -> 1/50 <= MM tk d.
 Proof.
-  intros (Ht & A & B & C & D).
+  intros (Ht & Z & Y & A & B & C & D).
+  destruct (Rle_dec tk 745).
+  { pose proof (Z ltac:(lra)). destruct (Rle_dec d 336); [apply m3_740_745_253; lra|]. destruct (Rle_dec d 420); [apply m3_740_745_336; lra|]. destruct (Rle_dec d 503); [apply m3_740_745_420; lra|]. apply m3_740_745_503; lra. }
+  destruct (Rle_dec tk 750).
+  { pose proof (Z ltac:(lra)). destruct (Rle_dec d 336); [apply m3_745_750_253; lra|]. destruct (Rle_dec d 420); [apply m3_745_750_336; lra|]. destruct (Rle_dec d 503); [apply m3_745_750_420; lra|]. apply m3_745_750_503; lra. }
+  destruct (Rle_dec tk 755).
+  { pose proof (Z ltac:(lra)). destruct (Rle_dec d 336); [apply m3_750_755_253; lra|]. destruct (Rle_dec d 420); [apply m3_750_755_336; lra|]. destruct (Rle_dec d 503); [apply m3_750_755_420; lra|]. apply m3_750_755_503; lra. }
+  destruct (Rle_dec tk 760).
+  { pose proof (Z ltac:(lra)). destruct (Rle_dec d 336); [apply m3_755_760_253; lra|]. destruct (Rle_dec d 420); [apply m3_755_760_336; lra|]. destruct (Rle_dec d 503); [apply m3_755_760_420; lra|]. apply m3_755_760_503; lra. }
+  destruct (Rle_dec tk 765).
+  { pose proof (Y ltac:(lra)). destruct (Rle_dec d 348); [apply m3_760_765_281; lra|]. destruct (Rle_dec d 416); [apply m3_760_765_348; lra|]. destruct (Rle_dec d 484); [apply m3_760_765_416; lra|]. apply m3_760_765_484; lra. }
+  destruct (Rle_dec tk 770).
+  { pose proof (Y ltac:(lra)). destruct (Rle_dec d 348); [apply m3_765_770_281; lra|]. destruct (Rle_dec d 416); [apply m3_765_770_348; lra|]. destruct (Rle_dec d 484); [apply m3_765_770_416; lra|]. apply m3_765_770_484; lra. }
+  destruct (Rle_dec tk 780).
+  { pose proof (Y ltac:(lra)). destruct (Rle_dec d 416); [apply m3_770_780_281; lra|].
+    destruct (Rle_dec tk 775); [destruct (Rle_dec d 484); [apply m3_770_775_416|apply m3_770_775_484]; lra|].
+    destruct (Rle_dec d 484); [apply m3_775_780_416|apply m3_775_780_484]; lra. }
   destruct (Rle_dec tk 790).
   { pose proof (A ltac:(lra)). destruct (Rle_dec d 412); [apply m3_780_306|apply m3_780_412]; lra. }
   destruct (Rle_dec tk (8002/10)).
@@ -53,21 +72,27 @@ Proof.
 Qed.
 
 Theorem pressure_increases_region3_partial_proof (t d1 d2 : R) :
-  507 <= t <= 590 -> d1 < d2 ->
-  (t <= 527 -> 306 <= d1 /\ d2 <= 517) -> (527 < t <= 547 -> 329 <= d1 /\ d2 <= 483) ->
+  467 <= t <= 590 -> d1 < d2 ->
+  (t <= 486 -> 253 <= d1 /\ d2 <= 586) -> (486 < t <= 506 -> 281 <= d1 /\ d2 <= 552) ->
+  (506 < t <= 527 -> 306 <= d1 /\ d2 <= 517) -> (527 < t <= 547 -> 329 <= d1 /\ d2 <= 483) ->
   (547 < t <= 567 -> 349 <= d1 /\ d2 <= 450) -> (567 < t -> 367 <= d1 /\ d2 <= 419) ->
   let P d := nth 0 (outsR super_traced [d; t] n3) 0 in
   P d1 < P d2.
 Proof.
-  intros Ht Hd A B C D P.
+  intros Ht Hd Z Y A B C D P.
   assert (Hk : t + 27314/100 <= t + Q2R tc_k_Q <= t + 27315/100) by (unfold Q2R, tc_k_Q; cbn [Qnum Qden]; lra).
   set (tk := t + Q2R tc_k_Q) in *.
-  assert (Hd1 : 300 <= d1).
-  { destruct (Rle_dec t 527); [destruct (A ltac:(lra)); lra|]. destruct (Rle_dec t 547); [destruct (B ltac:(lra)); lra|].
+  assert (Hb : 253 <= d1 /\ d2 <= 586).
+  { destruct (Rle_dec t 486); [destruct (Z ltac:(lra)); lra|]. destruct (Rle_dec t 506); [destruct (Y ltac:(lra)); lra|].
+    destruct (Rle_dec t 527); [destruct (A ltac:(lra)); lra|]. destruct (Rle_dec t 547); [destruct (B ltac:(lra)); lra|].
     destruct (Rle_dec t 567); [destruct (C ltac:(lra)); lra|]. destruct (D ltac:(lra)); lra. }
+  assert (Hd1 : 250 <= d1) by lra.
   assert (Dq : forall q, d1 <= q <= d2 -> in_dom3 tk q).
-  { intros q Hq. split; [lra|]. (split; [intros Hh|split; [intros Hh|split; intros Hh]]);
-      (destruct (Rle_dec t 527) as [L|L]; [destruct (A L); lra|]);
+  { intros q Hq. split; [lra|].
+    (split; [intros Hh|split; [intros Hh|split; [intros Hh|split; [intros Hh|split; intros Hh]]]]);
+      (destruct (Rle_dec t 486) as [L0|L0]; [destruct (Z L0); lra|]);
+      (destruct (Rle_dec t 506) as [L1|L1]; [destruct (Y ltac:(lra)); lra|]);
+      (destruct (Rle_dec t 527) as [L|L]; [destruct (A ltac:(lra)); lra|]);
       (destruct (Rle_dec t 547) as [L2|L2]; [destruct (B ltac:(lra)); lra|]);
       (destruct (Rle_dec t 567) as [L3|L3]; [destruct (C ltac:(lra)); lra|]);
       destruct (D ltac:(lra)); lra. }
@@ -87,4 +112,7 @@ Qed.
 (** non-vacuity: a supercritical state at 550 degC *)
 Example pressure_increases_region3_instance :
   let P d := nth 0 (outsR super_traced [d; 550] n3) 0 in P 380 < P 400.
+Proof. apply pressure_increases_region3_partial_proof; lra. Qed.
+Example pressure_increases_region3_instance_480 :
+  let P d := nth 0 (outsR super_traced [d; 480] n3) 0 in P 300 < P 500.
 Proof. apply pressure_increases_region3_partial_proof; lra. Qed.
